@@ -147,6 +147,79 @@ class Mirror:
         return kl is None or kl > 0
 
 
+def ops_legal(plan: dict[str, Any]) -> bool:
+    """Is this history inside the domain?  (Used to reject candidates while
+    a failing plan is being minimised: removing or reordering operations
+    must not turn it into one the library is documented not to support.)
+
+    * a save with factors before the first factor update is skipped at run
+      time and leaves the previous checkpoint in place;
+    * a state without factors is resumable only if the next training step
+      updates the factors AND refreshes; one loaded with
+      compute_inverses=False only if the next training step refreshes -
+      with the intervals as they stand when that step runs, i.e. after any
+      scheduler steps in between;
+    * with a mid-operation crash the job may resume from any earlier
+      checkpoint, so every save must hold factors and every restart must
+      recompute."""
+    ops = plan['ops']
+    sched = plan.get('scheduler') or {}
+    m = Mirror(plan['hps'], sched)
+    crash = False       # a crash countdown is armed and has not fired yet
+    all_full = True     # every checkpoint written so far holds factors
+    ck: Any = None
+    factors_exist = False
+    pending: str | None = None
+    try:
+        for op in ops:
+            k = op['op']
+            if k == 'crash_arm':
+                if not all_full:
+                    return False
+                crash = True
+            elif k == 'train':
+                if pending == 'both' and not (m.ref.is_factor_step()
+                                              and m.ref.is_inv_step()):
+                    return False
+                if pending == 'refresh' and not m.ref.is_inv_step():
+                    return False
+                pending = None
+                if not m.legal():
+                    return False
+                m.ref.steps += 1
+                factors_exist = True
+            elif k == 'sched' and sched:
+                m.ref.sched_step(sched, op.get('step'))
+                if not m.legal():
+                    return False
+            elif k == 'save':
+                inc_f = op.get('include_factors', True)
+                if inc_f and not factors_exist:
+                    continue
+                if crash and not inc_f:
+                    return False
+                all_full = all_full and inc_f
+                ck = (m.ref.steps,
+                      {a: dict(b) for a, b in m.ref.hps.items()}, inc_f)
+            elif k == 'restart':
+                ci = op.get('compute_inverses', True)
+                if crash and not ci:
+                    return False
+                crash = False
+                if ck is None:
+                    m = Mirror(plan['hps'], sched)
+                    factors_exist, pending = False, None
+                    continue
+                m.ref.steps = ck[0]
+                m.ref.hps = {a: dict(b) for a, b in ck[1].items()}
+                factors_exist = ck[2]
+                pending = 'both' if not ck[2] else (
+                    None if ci else 'refresh')
+    except Exception:  # noqa: BLE001
+        return False
+    return True
+
+
 def gen_ops(rng: random.Random, hps: dict[str, Any],
             sched_spec: dict[str, Any], world: int, *, max_ops: int,
             restarts: float, extras: float, acc: int, hook: bool,
@@ -229,6 +302,17 @@ def gen_ops(rng: random.Random, hps: dict[str, Any],
                     ops.append({'op': 'train', 'it': it})
                     it += 1
                 ops.append({k: v for k, v in rop.items() if k != 'try_bad'})
+            if not inc_f or not ci:
+                # resumable only on exactly the next step as the intervals
+                # stand in the checkpoint: nothing (no scheduler step) may
+                # come between the load and that step
+                ops.append({'op': 'train', 'it': it})
+                it += 1
+                trained += 1
+                factors_exist = True
+                if not m.legal():
+                    return None
+                m.ref.steps += 1
         else:
             op: dict[str, Any] = {'op': 'train', 'it': it}
             if rng.random() < 0.06:
@@ -328,4 +412,8 @@ def gen_train_plan(rng: random.Random, *, tier: str = 'quick',
             plan['loss_scaling'] = False
             mspec['input_gain'] = rng.choice([1.0, 30.0, 40.0])
             mspec['min_batch'], mspec['max_batch'] = 24, 32
+        if not ops_legal(plan):
+            # belt and braces: the generator's own bookkeeping and the
+            # independent legality walk must agree
+            continue
         return plan
